@@ -1,7 +1,7 @@
 """C19 - `init` always produces a configuration that bumpver itself can use.
 
 Space: every project directory over the recognised files (each config-capable file in one of
-4 (quick) / 6 (thorough) content states, README.md / README.rst / setup.py present or not); from each
+5 (quick) / 7 (thorough) content states (absent, empty, unrelated LF / CRLF / without final newline, section after unrelated content, section only), README.md / README.rst / setup.py present or not); from each
 directory the history  init --dry ; init ; show ; edit-version ; show ; init  is executed on the
 real CLI, every step observed.
 """
@@ -16,7 +16,7 @@ ID = "C19"
 LEVEL = "model_checking"
 MIN_OUTCOMES = 2
 MANIFEST = {
-    "text": "Every project directory over the recognised files (4^5*8 quick, 6^5*8 thorough) is built and the history "
+    "text": "Every project directory over the recognised files (5^5*8 quick, 7^5*8 thorough) is built and the history "
     "init --dry; init; show; edit; show; init; init --dry is executed on the real CLI with every step checked: complete "
     "enumeration of the stated finite space, so the property holds for all of it, not for a sample.",
     "note": "clock pinned via bumpver.utils.now/version.TODAY; only top-level files; invalid existing sections not enumerated",
@@ -58,7 +58,9 @@ SECTION = {
     ".bumpver.toml": '[bumpver]\ncurrent_version = "{v}"\nversion_pattern = "YYYY.BUILD[-TAG]"\n',
 }
 # content states of a config-capable file
-ABSENT, EMPTY, UNREL, SECT, UNREL_NONL, SECT_ONLY = range(6)
+ABSENT, EMPTY, UNREL, SECT, UNREL_NONL, SECT_ONLY, UNREL_CRLF = range(7)
+QUICK_STATES = (ABSENT, EMPTY, UNREL, SECT, UNREL_CRLF)
+ALL_STATES = (ABSENT, EMPTY, UNREL, SECT, UNREL_NONL, SECT_ONLY, UNREL_CRLF)
 CONFIGURED = (SECT, SECT_ONLY)
 
 
@@ -71,6 +73,8 @@ def content(fn, state):
         return UNRELATED[fn]
     if state == UNREL_NONL:
         return UNRELATED[fn].rstrip("\n")
+    if state == UNREL_CRLF:
+        return UNRELATED[fn].replace("\n", "\r\n")
     sect = SECTION[fn].format(v=VERSIONS[fn])
     if state == SECT:
         return UNRELATED[fn] + "\n" + sect
@@ -85,7 +89,7 @@ OTHER_CONTENT = {
 
 
 def bounds(tier, seed):
-    n = 4 if tier == "quick" else 6
+    n = len(QUICK_STATES) if tier == "quick" else len(ALL_STATES)
     return {
         "content_states_per_config_file": n,
         "directories": n ** 5 * 8,
@@ -94,8 +98,8 @@ def bounds(tier, seed):
 
 
 def all_cases(tier):
-    n = 4 if tier == "quick" else 6
-    return list(itertools.product(*([range(n)] * 5 + [(0, 1)] * 3)))
+    states = QUICK_STATES if tier == "quick" else ALL_STATES
+    return list(itertools.product(*([states] * 5 + [(0, 1)] * 3)))
 
 
 def explore(tier, seed):
@@ -119,7 +123,7 @@ def build(case):
     for fn, s in zip(CFG_FILES, case[:5]):
         c = content(fn, s)
         if c is not None:
-            files[fn] = c.encode()
+            files[fn] = c.encode()  # (written as bytes: CRLF content stays CRLF)
     for fn, present in zip(OTHER_FILES, case[5:]):
         if present:
             files[fn] = OTHER_CONTENT[fn].encode()
@@ -216,7 +220,7 @@ def run_case(case, st):
     st.outcomes[outcome] += 1
     st.nontriv(case)
     st.observe(obs_all)
-    if sum(case) in (0, 9) or case == (3, 2, 0, 1, 2, 1, 0, 1):
+    if sum(case) in (0, 9) or case == (3, 2, 0, 1, 6, 1, 0, 1):
         st.sample({"case": list(case), "files": sorted(files), "outcome": outcome,
                    "steps": [[list(a), e] for (a, e, _c, _s, _t) in obs_all]})
     os.chdir("/")
